@@ -364,6 +364,7 @@ class HttpStreamSession:
 
     __slots__ = (
         "_call_state_bytes",
+        "_cancelled",
         "_capabilities",
         "_client",
         "_compression_level",
@@ -424,6 +425,12 @@ class HttpStreamSession:
         # handed to the caller, which is where the pipe transports raise it.
         self._deferred_error = deferred_error
         self._capabilities: HttpServerCapabilities | None = None
+        self._cancelled = False
+
+    def _check_not_cancelled(self) -> None:
+        """Refuse any further use of a cancelled session."""
+        if self._cancelled:
+            raise RpcError("ProtocolError", "Stream has been closed or cancelled", "")
 
     def _maybe_externalize_request(self, body: bytes) -> bytes:
         """Pre-emptively externalize *body* if cached caps say it's too large.
@@ -541,6 +548,7 @@ class HttpStreamSession:
             RpcError: If the server reports an error or the stream has finished.
 
         """
+        self._check_not_cancelled()
         if self._state_bytes is None:
             raise RpcError("ProtocolError", "Stream has finished — no state token available", "")
 
@@ -636,8 +644,14 @@ class HttpStreamSession:
 
         Yields pre-loaded batches from init, then follows continuation tokens.
         """
+        # A cancelled session refuses iteration: neither the batches /init
+        # preloaded nor a continuation request may follow a cancel().
+        self._check_not_cancelled()
+
         # Yield pre-loaded batches from init response
-        yield from self._pending_batches
+        for ab in list(self._pending_batches):
+            yield ab
+            self._check_not_cancelled()
         self._pending_batches.clear()
 
         if self._deferred_error is not None:
@@ -678,6 +692,9 @@ class HttpStreamSession:
                     batch, custom_metadata, self._external_config, self._on_log, reader.ipc_validation
                 )
                 yield AnnotatedBatch(batch=resolved_batch, custom_metadata=resolved_cm)
+                # The caller may have cancelled while the generator was
+                # suspended: do not follow the continuation token it holds.
+                self._check_not_cancelled()
         except RpcError:
             if reader is not None:
                 _drain_stream(reader)
@@ -712,6 +729,7 @@ class HttpStreamSession:
             "next_with_token requires one data batch per response; the upstream "
             "worker buffered multiple (configured max_response_bytes?)"
         )
+        self._check_not_cancelled()
         # Init may have preloaded one data batch; its resume point is _state_bytes.
         if self._pending_batches:
             if len(self._pending_batches) > 1:
@@ -797,6 +815,9 @@ class HttpStreamSession:
         ``cancel()``, the session is marked finished; further ``exchange()``
         or iteration raises ``RpcError``.
         """
+        self._cancelled = True
+        self._pending_batches = []
+        self._deferred_error = None
         if self._finished or self._state_bytes is None:
             self._finished = True
             self._state_bytes = None
